@@ -196,10 +196,21 @@ func quiesce(cl *call, sent int, closedSend bool) {
 }
 
 // runCase executes the script pair on cc. measureLeak compares the goroutine count before and after.
-func runCase(cc grpc.ClientConnInterface, srv *scripted, c scase, measureLeak bool) outcome {
+func runCase(ep *endpoint, srv *scripted, c scase, measureLeak bool) outcome {
+	cc := ep.cc
 	info, ok := shapes[c.Shape]
 	if !ok {
 		panic("bad shape " + c.Shape)
+	}
+	var via viaSvc
+	if c.Via != "" {
+		if !viaOK(c.Via, c.Shape, c.Cli) {
+			panic("case cannot be driven through the generated wrapper: " + c.String())
+		}
+		via = viaSvcs[c.Via]
+		if via.newRes != nil {
+			info.newRes, info.resN = via.newRes, via.resN
+		}
 	}
 	cl := &call{ops: parseSrv(c.Srv), fin: parseFin(c.Fin), amp: c.Amp, reuse: c.Reuse, pass: c.Pass, shape: c.Shape, gate: make(chan struct{}), done: make(chan struct{})}
 	id := srv.register(cl)
@@ -224,7 +235,7 @@ func runCase(cc grpc.ClientConnInterface, srv *scripted, c scase, measureLeak bo
 	cops := parseCli(c.Cli)
 	hasDeadline := false
 	for _, op := range cops {
-		if op.K == 'd' {
+		if op.K == 'd' || op.K == 'z' {
 			hasDeadline = true
 		}
 	}
@@ -291,7 +302,13 @@ func runCase(cc grpc.ClientConnInterface, srv *scripted, c scase, measureLeak bo
 				cancel()
 			}()
 		}
-		if !within(opTimeout, func() { err = cc.Invoke(ctx, info.method, req, res, opts...) }) {
+		var viaN int
+		call := func() { err = cc.Invoke(ctx, info.method, req, res, opts...) }
+		if c.Via != "" {
+			// the typed client of the generated wrapper (resp. of the gRPC connection), same call options
+			call = func() { viaN, req, res, err = via.unary(ep.typed[c.Via], ctx, n, opts...) }
+		}
+		if !within(opTimeout, call) {
 			out.timedOut = true
 			ev("TO")
 		} else {
@@ -303,6 +320,8 @@ func runCase(cc grpc.ClientConnInterface, srv *scripted, c scase, measureLeak bo
 			}
 			if err != nil {
 				ev(errEvent(err))
+			} else if c.Via != "" {
+				ev("m" + strconv.Itoa(viaN))
 			} else {
 				ev("m" + info.resEv(c, res))
 				out.gotRes = append(out.gotRes, res)
@@ -315,7 +334,13 @@ func runCase(cc grpc.ClientConnInterface, srv *scripted, c scase, measureLeak bo
 	} else {
 		var cs grpc.ClientStream
 		var err error
-		if !within(opTimeout, func() { cs, err = cc.NewStream(ctx, info.desc, info.method) }) {
+		open := func() { cs, err = cc.NewStream(ctx, info.desc, info.method) }
+		opened := false // the typed client of a generated wrapper sends the request and half-closes when it opens the stream
+		if c.Via != "" {
+			open = func() { cs, _, err = via.stream(ep.typed[c.Via], ctx, parseCli(c.Cli)[0].N) }
+			opened = true
+		}
+		if !within(opTimeout, open) {
 			out.timedOut = true
 			ev("TO")
 		} else if err != nil {
@@ -331,11 +356,16 @@ func runCase(cc grpc.ClientConnInterface, srv *scripted, c scase, measureLeak bo
 			nsent := 0
 			t0 := time.Now()
 		loop:
-			for _, op := range cops {
+			for i, op := range cops {
 				var e string
 				fin := within(opTimeout, func() {
 					switch op.K {
 					case 's':
+						if opened && i == 0 {
+							e = "ok"
+							nsent++
+							return
+						}
 						m := info.mkReq(c, op.N)
 						if c.Reuse {
 							// one request object for all sends, overwritten as soon as SendMsg has returned
@@ -360,6 +390,11 @@ func runCase(cc grpc.ClientConnInterface, srv *scripted, c scase, measureLeak bo
 							}
 						}
 					case 'c':
+						if opened && i == 1 {
+							e = "cl"
+							closedSend = true
+							return
+						}
 						if err := cs.CloseSend(); err != nil {
 							e = "clerr"
 						} else {
@@ -389,6 +424,23 @@ func runCase(cc grpc.ClientConnInterface, srv *scripted, c scase, measureLeak bo
 						}
 						cancel()
 						e = "x"
+					case 'y':
+						// cancelled from the side while the client is inside its NEXT op: fired once the handler is parked
+						go func() {
+							for i := 0; i < 4000 && !cl.parked.Load(); i++ {
+								time.Sleep(500 * time.Microsecond)
+							}
+							quiesce(cl, nsent, true)
+							cancel()
+						}()
+						e = "x"
+					case 'z':
+						// the deadline passes while the client is inside its next op
+						if time.Since(t0) > deadlineAfter/2 {
+							e = "slow"
+							return
+						}
+						e = "d"
 					case 'w':
 						select {
 						case <-cl.done:
@@ -417,6 +469,9 @@ func runCase(cc grpc.ClientConnInterface, srv *scripted, c scase, measureLeak bo
 					out.skip = true
 					break loop
 				}
+				if i > 0 && cops[i-1].K == 'z' && !cl.parked.Load() {
+					out.skip = true // the deadline passed before the handler had got to its parking op (loaded machine)
+				}
 			}
 		}
 	}
@@ -434,7 +489,7 @@ func runCase(cc grpc.ClientConnInterface, srv *scripted, c scase, measureLeak bo
 	close(cl.gate)
 	aborted := hasDeadline || out.timedOut
 	for _, op := range cops {
-		if op.K == 'x' {
+		if op.K == 'x' || op.K == 'y' {
 			aborted = true
 		}
 	}
